@@ -116,8 +116,9 @@ def coreVerdict (sp sa sb spos sf obs : String) : String :=
     let s : St := { len := Int.ofNat nb * 8, pos := Int.ofNat pos, force := sf == "f" }
     -- the harness decoder is the only format of its group: the class of decodeGroup is the class of the primitive
     let m := (corePrim p s a).cls
+    let mr := (corePrimRepaired p s a).cls     -- recognised once the proposed core repair is applied
     let kindOf (o : String) : String := "panic:" ++ (o.splitOn ":").getLastD ""
-    let agrees := if isPanic obs then kindOf obs == m else obs == m
+    let agrees := if isPanic obs then kindOf obs == m else (obs == m || (p.unsafeArg && obs == mr))
     let div := if agrees then "" else s!" ;DIVERGE model={m}"
     if isPanic obs then knownVerdict obs ++ div
     else if isResource obs then
